@@ -34,3 +34,4 @@ def run(repo, res, tier):
     _eff.rule_memo(repo, res)
     _hk.rule_aggcls(repo, res)
     _hk.rule_v_eq(repo, res)
+    _eff.rule_iter_mut(repo, res)
